@@ -4,6 +4,8 @@ outcome into the evidence file that hlcheck just wrote.
 
  - the variant corpus (variants/corpus.py): seeded variants must be reported, equivalent ones must stay silent
  - the independently seeded changes kept under /verif/seeded/<name>/ (patch.diff + meta.json)
+ - the independently written behaviour-preserving refactorings under /verif/equivalents/<name>/: the property's
+   check must stay silent on every one of them
 
 Variants are applied to scratch copies outside /repo and /verif, ANALYSED (never built into a binary, never run)
 and removed.  The verdict on the property stays the one hlcheck gave for the unchanged tree; weaknesses of the
@@ -34,6 +36,24 @@ def run_seeded(meta_path, prop):
         res["reports"] = [l[:240] for l in lines][:4]
         res["status"] = "killed" if r.returncode == 1 else ("checker-error" if r.returncode == 2 else "MISSED")
         res["expected"] = meta.get("detected_by", {}).get(prop, None)
+        return res
+    finally:
+        shutil.rmtree(scratch, ignore_errors=True); shutil.rmtree(out, ignore_errors=True)
+
+def run_equiv(d, prop):
+    name = os.path.basename(d)
+    res = dict(name=name, kind="independent-equivalent")
+    scratch = tempfile.mkdtemp(prefix="hle-", dir=os.environ.get("TMPDIR", "/tmp"))
+    out = tempfile.mkdtemp(prefix="hle-ev-", dir=os.environ.get("TMPDIR", "/tmp"))
+    try:
+        subprocess.run(["rsync", "-a", "--exclude", ".git", "--exclude", "/docs", V.REPO + "/", scratch + "/"], check=True)
+        a = subprocess.run(["patch", "-p1", "-s", "-i", os.path.join(d, "patch.diff")], cwd=scratch, capture_output=True, text=True)
+        if a.returncode != 0:
+            res["status"] = "stale"; return res
+        r = subprocess.run([os.path.join(VERIF, "bin", "hlcheck"), "-prop", prop, "-repo", scratch, "-verif", VERIF, "-out", out], env=V.ENV, capture_output=True, text=True)
+        lines = [l.strip() for l in r.stdout.splitlines() if l.strip().startswith(("VIOLATED", "UNDECIDED"))]
+        res["reports"] = [l[:240] for l in lines][:3]
+        res["status"] = "silent" if r.returncode == 0 else ("checker-error" if r.returncode == 2 else "FALSE-ALARM")
         return res
     finally:
         shutil.rmtree(scratch, ignore_errors=True); shutil.rmtree(out, ignore_errors=True)
@@ -77,12 +97,17 @@ def main():
     metas = [m for m in sorted(glob.glob(os.path.join(VERIF, "seeded", "*", "meta.json"))) if prop in json.load(open(m)).get("properties", [])]
     with concurrent.futures.ThreadPoolExecutor(max_workers=8) as ex:
         seeded = list(ex.map(lambda m: run_seeded(m, prop), metas))
+    eq_dirs = [os.path.dirname(m) for m in sorted(glob.glob(os.path.join(VERIF, "equivalents", "*", "patch.diff")))]
+    with concurrent.futures.ThreadPoolExecutor(max_workers=8) as ex:
+        equivs = list(ex.map(lambda d: run_equiv(d, prop), eq_dirs))
+    e_silent = [r["name"] for r in equivs if r["status"] == "silent"]
+    e_alarm = [r["name"] for r in equivs if r["status"] == "FALSE-ALARM"]
     killed = [r["name"] for r in results if r["status"] == "killed"]
     missed = [r["name"] for r in results if r["status"] == "MISSED"]
     silent = [r["name"] for r in results if r["status"] == "silent"]
     alarms = [r["name"] for r in results if r["status"] == "FALSE-ALARM"]
-    stale = [r["name"] for r in results + seeded if r["status"] == "stale"]
-    errors = [r["name"] for r in results + seeded if r["status"] in ("checker-error", "nobuild")]
+    stale = [r["name"] for r in results + seeded + equivs if r["status"] == "stale"]
+    errors = [r["name"] for r in results + seeded + equivs if r["status"] in ("checker-error", "nobuild")]
     s_killed = [r["name"] for r in seeded if r["status"] == "killed"]
     s_missed = [r["name"] for r in seeded if r["status"] == "MISSED"]
     s_missed_unexpected = [r["name"] for r in seeded if r["status"] == "MISSED" and r.get("expected") not in (None, "not-detected")]
@@ -90,6 +115,7 @@ def main():
         corpus_seeded_total=len(killed) + len(missed), corpus_seeded_killed=len(killed), undetected_variants=missed,
         corpus_equivalent_total=len(silent) + len(alarms), corpus_equivalent_silent=len(silent), false_alarm_variants=alarms,
         independent_seeded_total=len(s_killed) + len(s_missed), independent_seeded_killed=s_killed, independent_seeded_missed=s_missed,
+        independent_refactorings_total=len(e_silent) + len(e_alarm), independent_refactorings_silent=len(e_silent), independent_refactorings_alarming=e_alarm,
         stale=stale, errors=errors, wall_s=round(time.time() - t0, 1),
         note="variants are analysed in scratch copies, never executed; the verdict on the property is the one for the unchanged tree")
     evp = os.path.join(VERIF, "evidence", prop + ".json")
@@ -97,9 +123,10 @@ def main():
     ev["coverage"]["variant_validation"] = vv
     ev["wall_s"] = round(ev.get("wall_s", 0) + vv["wall_s"], 2)
     json.dump(ev, open(evp, "w"), indent=1)
-    print(f"variants {prop}: corpus seeded {len(killed)}/{len(killed)+len(missed)} reported, equivalent {len(silent)}/{len(silent)+len(alarms)} silent; independently seeded {len(s_killed)}/{len(s_killed)+len(s_missed)} reported; stale {len(stale)}; {vv['wall_s']}s")
+    print(f"variants {prop}: corpus seeded {len(killed)}/{len(killed)+len(missed)} reported, equivalent {len(silent)}/{len(silent)+len(alarms)} silent; independently seeded {len(s_killed)}/{len(s_killed)+len(s_missed)} reported; independent refactorings {len(e_silent)}/{len(e_silent)+len(e_alarm)} silent; stale {len(stale)}; {vv['wall_s']}s")
     for n in missed: print(f"WEAKNESS undetected corpus variant {prop}/{n}")
     for n in alarms: print(f"WEAKNESS false alarm on equivalent variant {prop}/{n}")
+    for n in e_alarm: print(f"WEAKNESS false alarm on independently written refactoring {prop}/{n}")
     for n in s_missed_unexpected: print(f"WEAKNESS independently seeded change no longer detected {prop}/{n}")
     for n in errors: print(f"WEAKNESS checker error on variant {prop}/{n}")
 
